@@ -1,7 +1,7 @@
 CONSTANTS
   MaxU = "18446744073709551615"
   Clients = {1, 2}
-  Progs <- Progs04_2
+  Progs <- Progs08_2
   Inits = {"absent", "present", "expired"}
   KeyLock = TRUE
   ExpiryRecheck = TRUE
